@@ -21,8 +21,9 @@ PROPERTIES_V = "theories/Properties/C19.v"
 CASE_IMPORTS = "From GV Require Import Prelude.Base Model.H5Read.\nFrom Coq Require Import String.\nLocal Open Scope string_scope.\nLocal Open Scope list_scope."
 ALLOWED_AXIOMS: list = []
 REFUTED = [
-    "C19_optional_full (C19_optional_refuted: deleting the optional Root link of a file with nested groups hangs a nested group "
-    "on the rebuilt root; witness corpus/C19/0001-root-link-nested.json)",
+    "C19_optional_full (C19_optional_refuted, for the pinned source [nested_scan = false]: deleting the optional Root link of a file "
+    "with nested groups hangs a nested group on the rebuilt root; witness corpus/C19/0001-root-link-nested.json; repair in "
+    "fixes/C19-root-rebuild-keeps-hierarchy.patch)",
     "C19_mandatory_full (C19_mandatory_refuted: a missing Name is replaced by the class default instead of an error / leaving the "
     "entity out; witness corpus/C19/0002-name-defaulted.json)",
 ]
